@@ -182,6 +182,25 @@ def run(ctx):
                         ctx.check(np.shape(o.value) == want_shape and np.shape(oa.value) == want_shape, 'empty:result-shape', cid,
                                   stat=st, form=fname, got=[list(np.shape(o.value)), list(np.shape(oa.value))], want=list(want_shape))
                         ctx.check(close(o.value, oa.value, 1e-12), 'empty:array-vs-sample', cid, stat=st, form=fname)
+            # ---- history: the caller edits its own container in place between two identical requests; the second answer
+            # is the statistic of the values the container holds then (each call is judged in situ against the definitions)
+            if s.shape[0] >= 2 and rng.random() < 0.5:
+                for cont_ in (s.copy(), plain.copy()):
+                    for st in NAMES:
+                        fn = getattr(F.stats, st)
+                        fname, ch, pos = forms[int(rng.integers(len(forms)))]
+                        if fname.startswith('x:'):
+                            continue
+                        req = ch if cont_ is not plain and hasattr(cont_, 'channels') else pos
+                        with np.errstate(all='ignore'):
+                            o1 = core.attempt(fn, cont_, req)
+                            etag = zoo.edit_in_place(rng, cont_)
+                            o2 = core.attempt(fn, cont_, req)
+                            fresh_ = core.attempt(fn, cont_.copy(), req)
+                        ctx.counters['chk:history:edit-in-place'] += 1
+                        if not o2.raised and not fresh_.raised:
+                            ctx.check(close(o2.value, fresh_.value, 0), 'history:answer-of-earlier-values', cid, stat=st, edit=etag,
+                                      form=fname, got=o2.value, fresh_copy=fresh_.value)
             with np.errstate(all='ignore'):
                 v = {st: core.attempt(getattr(F.stats, st), s) for st in NAMES}
             tol = monitors.stat_tol(s.dtype)
